@@ -64,6 +64,25 @@ func checkC29(r *Run) {
 		}
 	}
 	r.ReturnShape("C29-R2", "visor.txnHashesContainer.Len", 0, ShapeCase{"", "uint64(len($0.items))"})
+	// R5 sibling agreement: every getter that pages a hash list sorts the whole list first and pages afterwards
+	// (pages are slices of one ordered list, not separately sorted slices of an unordered one)
+	nPg := 0
+	for _, fn := range r.P.ModFns {
+		if !strings.HasPrefix(FnName(fn), "visor.") || len(r.CallSites(fn, "visor.txnHashesContainer.Pagination")) == 0 {
+			continue
+		}
+		nPg++
+		r.RequireCallOrder("C29-R5", FnName(fn), "the full list is sorted before it is cut into pages", "visor.txnHashesContainer.Sort", "visor.txnHashesContainer.Pagination")
+		for _, cs := range r.CallSites(fn, "visor.txnHashesContainer.Pagination") {
+			for _, ss := range r.CallSites(fn, "visor.txnHashesContainer.Sort") {
+				same := r.argTerm(ss, 0) == r.argTerm(cs, 0)
+				r.Check("C29-R5", FnName(fn)+": the container that is paged is the one that was sorted", r.P.Pos(cs.Pos()), same, r.argTerm(ss, 0)+" vs "+r.argTerm(cs, 0))
+				after := cs.Block() != ss.Block() && cs.Block().Dominates(ss.Block())
+				r.Check("C29-R5", FnName(fn)+": no sort after paging", r.P.Pos(ss.Pos()), !after, "the page is sorted on its own")
+			}
+		}
+	}
+	r.Check("C29-R5", "getters that page a hash list", "", nPg >= 3, fmt.Sprint(nPg))
 	// R4 the list the pages are cut from holds every hash once: each append to items happens only when the hash
 	// is not yet in the membership map, and records it there
 	nApp := 0
